@@ -144,7 +144,7 @@ def array_leaves(tree) -> list:
 def build_algo(cls: dict):
     a, n, T = cls["algo"], cls["n"], cls["T"]
     if a == "PPO":
-        return PPO(num_envs=n, num_steps=T, num_epochs=2, num_batches=2)
+        return PPO(num_envs=n, num_steps=T, num_epochs=2, num_batches=2, **dict(cls.get("algo_kwargs", {})))
     if a == "A2C":
         return A2C(num_envs=n, num_steps=T)
     if a == "REINFORCE":
@@ -424,6 +424,12 @@ class Runner:
         base = None
         for op in plan["ops"]:
             if op == "baseline":
+                if cls.get("prior_history"):
+                    # F.prior_training: ANOTHER configuration of the same algorithm class is trained first in this process (and its
+                    # result thrown away); what the configuration under test then computes must not depend on that history
+                    prior = build_algo({**cls, "algo_kwargs": {}})
+                    jax.block_until_ready(prior.learn(env, policy, n * T, key=jr.key(plan["learn_key"] ^ 0x1234)))
+                    res.faults["F.prior_training_of_another_configuration"] += 1
                 base = self.algo.learn(env, policy, total, key=key)
                 jax.block_until_ready(base)
                 tr.ev("baseline", digest=leaves_digest(base)[:16])
